@@ -295,10 +295,10 @@ def stepHS (toks : List String) : String :=
     else if scen == "reflect" then authA
     else if scen == "replay" || scen == "replayeph" then some ⟨some kB, .good ⟨kB, mkChal 21 22⟩⟩   -- B's signature of an older session
     else if scen == "mitmfull" then (respond kM 96 (some eA)).map (·.2)
-    else if scen == "coalesce" then none   -- the eph-key decoder's throw-away bufio.Reader swallowed the frame (code as it is)
+    -- `coalesce` alters no byte (only the segmentation): since fd59b35 the eph key is read with io.ReadFull, nothing is lost
     else tamper "BA" authB
-  let resA := match ra with | none => none | some (c, _) => finish c authToA
-  let resB := match rb with | none => none | some (c, _) => finish c authToB
+  let resA := match ra with | none => none | some (c, _) => finish kA c authToA
+  let resB := match rb with | none => none | some (c, _) => finish kB c authToB
   let noB := scen == "reflect" || scen == "replay" || scen == "replayeph" || scen == "mitmfull"
   s!"a={showRes kA resA} b={if noB then "-" else showRes kB resB}"
 
